@@ -59,7 +59,7 @@ class StrPatchwork(object):
             return array_tobytes(r)
 
         else:
-            if item > len(s):
+            if item >= len(s):
                 return self.paddingbyte
             else:
                 return struct.pack("B", s[item])
